@@ -27,7 +27,9 @@ Volumes  == {"off", "flag", "number", "object", "dividing", "baseobject"}
 Delays   == {"none", "false", "true"}
 \* "dtrules": the model "rules" with its first rule at frequency 'dt' instead of 'start' (a dt rule runs on the rule step
 \* that every simulator takes at the initial instant)
-Models   == {"plain", "delays", "rules", "both", "decay1", "inert", "dtrules"}   \* inert: the plain network with no molecules (total propensity 0)
+\* "counter": a repeated rule on a PARAMETER that reads itself (_n = n + 1, n = 0 in the model) followed by the repeated rule
+\* C = n: "the initial condition with assignment rules applied" applies every rule once, so the first row reports C = 1
+Models   == {"plain", "delays", "rules", "both", "decay1", "inert", "dtrules", "counter"}   \* inert: the plain network with no molecules (total propensity 0)
 
 \* ---- the five test models as data: species in model order, initial state, assignment rules
 \* (target index, coefficient vector, constant) applied in declaration order at the initial instant
@@ -40,6 +42,8 @@ X0(m, e) == IF m = "decay1" THEN (IF e THEN <<7>> ELSE <<5>>)
 Rules(m) == IF m \in {"rules", "both", "dtrules"}
             THEN << [tgt |-> 2, coef |-> <<2, 0, 0>>, k |-> 0],      \* start:  B = 2*A
                     [tgt |-> 3, coef |-> <<1, 1, 0>>, k |-> 1] >>    \* repeat: C = A + B + 1
+            ELSE IF m = "counter"
+            THEN << [tgt |-> 3, coef |-> <<0, 0, 0>>, k |-> 1] >>    \* repeat: n = n + 1 (n was 0); C = n
             ELSE << >>
 Dot(c, x) == LET RECURSIVE D(_)
                  D(i) == IF i = 0 THEN 0 ELSE c[i] * x[i] + D(i - 1)
